@@ -331,6 +331,7 @@ def run_shard(spec, rec):
             judge(fresh, s, "random")
     elif kind == "casei":
         ureg = pintload.registry(non_int_type=F)
+        ureg_ci = pintload.registry(non_int_type=F, case_sensitive=False)
         lower = {}
         for sp, c in m.spell.items():
             lower.setdefault(sp.lower(), set()).add(c)
@@ -361,6 +362,38 @@ def run_shard(spec, rec):
             rec.case(("casei", s))
             got_cs = ask(ureg, pint, s, case_sensitive=True)
             got_ci = ask(ureg, pint, s, case_sensitive=False)
+            # the per-call option through every entry point, on a registry whose own setting is the
+            # opposite: an explicit request wins over the registry default, whichever way
+            if i % 3 == 0:
+                def via(reg, how, cs):
+                    try:
+                        if how == "get_name":
+                            return ("ok", reg.get_name(s, case_sensitive=cs))
+                        r = {"parse_units": reg.parse_units, "parse_expression": reg.parse_expression,
+                             "call": reg}[how](s, case_sensitive=cs)
+                        d = dict(r._units._d) if hasattr(r, "_units") else None
+                        return ("ok", next(iter(d))) if d and len(d) == 1 and list(d.values()) == [1] else ("ok", "?")
+                    except pint.UndefinedUnitError:
+                        return ("undefined",)
+                    except pint.OffsetUnitCalculusError:
+                        return ("offset",)
+                    except Exception as e:  # noqa: BLE001
+                        return ("other", type(e).__name__)
+                for reg, regname in ((ureg, "case-sensitive registry"), (ureg_ci, "case-insensitive registry")):
+                    for cs, ref in ((True, got_cs), (False, got_ci)):
+                        for how in ("get_name", "parse_units", "parse_expression", "call"):
+                            g = via(reg, how, cs)
+                            rec.count("per_call_case_option_checks")
+                            # constants and numbers (parse_expression of 'e', 'pi') are not unit lookups
+                            if g == ("ok", "?") or ref[0] == "offset" or g[0] == "offset":
+                                continue
+                            if g[0] != ref[0] or (g[0] == "ok" and ref[0] == "ok" and g[1] != ref[1] and how != "get_name"
+                                                  and not g[1].startswith("delta_")):
+                                rec.violation("per-call-case-option-ignored",
+                                              {"string": s, "registry": regname, "case_sensitive": cs, "entry": how,
+                                               "got": g, "get_name_on_default_registry": ref},
+                                              workload="casei", entry=how, requested="sensitive" if cs else "insensitive",
+                                              registry_default="insensitive" if reg is ureg_ci else "sensitive")
             # case-sensitive answer is the C08 main clause (judged elsewhere); here: what case
             # insensitivity ADDS.
             if s in m.spell:
